@@ -349,6 +349,88 @@ def r2_candidates(ctx):
         for k in ("single-kept", "needs-other", "group-by-base", "non-candidates-kept", "count-key", "other"):
             r.inst("merge_plurals#" + k, "%d key sets: forms of one base key and rule type with `_other` become one plural (count key `var_count`, every form under its own category), lone forms / forms without `_other` / non-candidates stay "
                    "ordinary keys, mixed rule types and a merged key landing on an existing key are errors, sub-key groups are merged too, no key is dropped" % nsh)
+    # across locales: a locale whose rules only have the category "other" (ja, zh, ko, vi ..) writes a plural as `key_other` alone; inside one
+    # locale that cannot be told from an ordinary key, so it is decided against the default locale: `key_other` (`key_ordinal_other`) becomes the
+    # plural `key` (all counts -> that text) when the default locale has a plural of that rule type at `key` and the locale has no `key` of its
+    # own - at any sub-key depth; otherwise it stays an ordinary key.  LocalesOrNamespaces::merge_plurals_inner evaluated on two locales.
+    mpi = ast.fn(PL, "merge_plurals_inner")
+    alo = ast.fn(PL, "adopt_lone_other_forms", impl_self="Locale")
+    if mpi is None:
+        r.missing("LocalesOrNamespaces::merge_plurals_inner")
+    elif alo is None:
+        r.viol("R2:merge_plurals_inner#lone-other", "no pass over the locales turns a lone `key_other` into the plural `key` of the default locale (Locale::adopt_lone_other_forms not found): a locale with the "
+               "single category `other` (ja, zh, ko ..) keeps a plain key `items_other`, and `items` falls back to the default locale's text", file=mpi.file, line=mpi.line)
+    else:
+        from rules import absint as _ab
+        _ab.set_program(ast)
+
+        def plural(rule, forms, other):
+            return C("Plurals", CF("Plurals", rule_type=C(rule), forms=L(*[T(C(f_), v_) for f_, v_ in forms]), count_key=A("count-key"), other=other))
+
+        def loc(name, entries):
+            return CF("Locale", keys=L(*[T(key(k_), v_) for k_, v_ in entries]), name=S(name), top_locale_name=S(name))
+        # the locales as the per-locale pass leaves them: en's forms merged, the lone forms of ja / fr still ordinary keys
+        en = loc("en", [("items", plural("Cardinal", [("One", V("en-one"))], V("en-other"))), ("rank", plural("Ordinal", [("One", V("en-1st"))], V("en-nth"))), ("the_other", V("en-the-other")),
+                        ("grp", C("Subkeys", C("Some", loc("grp", [("n", plural("Cardinal", [("One", V("en-n1"))], V("en-n")))]))))])
+        ja = loc("ja", [("items_other", V("ja-other")), ("rank_ordinal_other", V("ja-nth")), ("the_other", V("ja-the-other")), ("rank_other", V("ja-stray")),
+                        ("grp", C("Subkeys", C("Some", loc("grp", [("n_other", V("ja-n"))]))))])
+        fr = loc("fr", [("items", V("fr-plain-items")), ("items_other", V("fr-other"))])          # has its own `items`: `items_other` is not adopted
+        afters = []
+        got = None
+        for lv in (ja, fr):
+            ev = AEval(funcs=funcs)
+            ev.path_builtins = {"Key::count": lambda a: A("count-key"), "Key::try_new": lambda a: C("Ok", key(a[0][1])), "Key::new": lambda a: C("Some", key(a[0][1]))}
+            got = ev.run_fn(alo, [lv, en])
+            if isinstance(got, str):
+                break
+            afters.append((getattr(ev, "last_env", None) or {}).get("self", lv))
+        # ... and the pass is run for the locales of every namespace / the whole set (MIR: merge_plurals_inner calls it)
+        import mustlib as _M2
+        pm_ = ctx.mir("main")
+        bmi = pm_.body("locale::LocalesOrNamespaces::merge_plurals_inner")
+        called = bmi is not None and bool(_M2.call_blocks(bmi, r"locale::Locale::adopt_lone_other_forms$"))
+        if isinstance(got, str):
+            r.viol("R2:merge_plurals_inner#undecided", "the merge across locales cannot be interpreted on the current code (%s): not decided (fail closed)" % got, file=alo.file, line=alo.line)
+        elif not called:
+            r.viol("R2:merge_plurals_inner#lone-other", "merge_plurals_inner does not run the pass that adopts lone `_other` forms", file=mpi.file, line=mpi.line)
+        else:
+            after = ("list", (en, afters[0], afters[1]))
+            def keys_of(lv):
+                out = {}
+                for x in _ab.fields_of(lv)["keys"][1]:
+                    k_ = _ab.fields_of(x[1][0])["name"][1]
+                    v_ = x[1][1]
+                    if v_[0] == "ctor" and v_[1] == "Subkeys" and v_[2] and v_[2][0][1] == "Some":
+                        for k2, v2 in keys_of(v_[2][0][2][0]).items():
+                            out[k_ + "." + k2] = v2
+                    else:
+                        out[k_] = v_
+                return out
+            kj, kf = keys_of(after[1][1]), keys_of(after[1][2])
+
+            def is_pl(v_, rule, other):
+                if not (v_ and v_[0] == "ctor" and v_[1] == "Plurals"):
+                    return False
+                f_ = _ab.fields_of(v_[2][0])
+                return f_["rule_type"] == C(rule) and f_["other"] == other and f_["forms"] in (L(), _ab.DEFAULT)
+            probs = []
+            if not is_pl(kj.get("items"), "Cardinal", V("ja-other")) or "items_other" in kj:
+                probs.append("ja `items_other` (en has the plural `items`) is left as %s" % sorted(k for k in kj if k.startswith("items")))
+            if not is_pl(kj.get("rank"), "Ordinal", V("ja-nth")) or "rank_ordinal_other" in kj:
+                probs.append("ja `rank_ordinal_other` (en has the ordinal plural `rank`) is left as %s" % sorted(k for k in kj if k.startswith("rank")))
+            if kj.get("rank_other") != V("ja-stray"):
+                probs.append("ja `rank_other` (a cardinal form, en's `rank` is ordinal) must stay an ordinary key")
+            if kj.get("the_other") != V("ja-the-other") or "the" in kj:
+                probs.append("ja `the_other` (en has no plural `the`) must stay an ordinary key: %s" % sorted(k for k in kj if k.startswith("the")))
+            if not is_pl(kj.get("grp.n"), "Cardinal", V("ja-n")):
+                probs.append("ja `grp.n_other` inside a sub-key group is left as %s" % sorted(k for k in kj if k.startswith("grp")))
+            if kf.get("items") != V("fr-plain-items") or kf.get("items_other") != V("fr-other"):
+                probs.append("fr has its own `items`: its `items_other` must be left alone, got %s" % {k: _ab.fmt(v)[:30] for k, v in kf.items()})
+            if probs:
+                r.viol("R2:merge_plurals_inner#lone-other", "; ".join(probs[:3]) + " - a locale with the single category `other` loses its translation to the default locale's", file=mpi.file, line=mpi.line)
+            else:
+                r.inst("merge_plurals_inner#lone-other", "3 locales: a lone `_other` / `_ordinal_other` becomes the plural the default locale has at that key (also in a sub-key group); not when the rule type differs, "
+                       "the default has no plural there, or the locale has the key itself")
     return r
 
 
